@@ -181,6 +181,18 @@ def _remove_invalid_keys(region_meta, valid_keys):
     return meta
 
 
+def _delimit_text(text):
+    """
+    Enclose text in a pair of DS9 text delimiters ({}, "" or '') that
+    does not occur in the text itself.
+    """
+    text = str(text)
+    for left, right in ('{}', '""', "''"):
+        if left not in text and right not in text:
+            return f'{left}{text}{right}'
+    return f'{{{text}}}'  # no delimiter pair can enclose this text
+
+
 def _translate_metadata_to_ds9(region, shape):
     """
     Translate region metadata to valid ds9 meta keys.
@@ -199,7 +211,7 @@ def _translate_metadata_to_ds9(region, shape):
         meta['fill'] = int(fill)
 
     if 'text' in meta:
-        meta['text'] = f'{{{meta["text"]}}}'
+        meta['text'] = _delimit_text(meta['text'])
 
     if 'include' in meta:
         meta['include'] = int(bool(meta['include']))
